@@ -409,12 +409,13 @@ PROPS = {
         "title": "Component round trip preserves structure at any nesting depth",
         "units": ["V10_parse"],
         "obligations": ["V10_parse.track_nesting.*", "V10_parse.fn:Component::track_nesting", "V10_parse.parse_module_section.*", "V10_parse.fn:parse_module_section",
-                        "V10_parse.parse_component_section.*", "V10_parse.fn:Component::parse_component_section", "V10_parse.add_to_sections.*", "V10_parse.fn:Component::add_to_sections"],
-        "glue": ["only the PARSE half, and of it only the nesting bookkeeping: every other arm of Component::parse_comp (imports, exports, types, instances, aliases, canonical functions, names: iterator-adapter code over wasmparser readers) and the whole of Component::encode_comp (section replay, 650 lines) are not under contract",
+                        "V10_parse.parse_component_section.*", "V10_parse.fn:Component::parse_component_section", "V10_parse.add_to_sections.*", "V10_parse.fn:Component::add_to_sections",
+                        "V10_parse.parse_comp_*_section.*", "V10_parse.fn:Component::parse_comp_*_section", "V10_parse.fn:lemma_first_err"],
+        "glue": ["only the PARSE half: the nesting bookkeeping, the core-module / nested-component arms and the eight plain section arms of Component::parse_comp (imports, exports, core instances, core types, component types, component instances, aliases, canonical functions: the entries the section reader yields are stored in order behind those already there and the run-length record of the section order grows by exactly that many items of that kind; the collect chains are written as loops by rule R24, the readers are a TRUSTED sequence model). The start-section and custom / name-section arms and the whole of Component::encode_comp (section replay, 650 lines, conversions of external component-model types) are not under contract",
                  "that the payload stream of wasmparser's parse_all contains the payloads of nested modules / components inline, each closed by its own End, is a TRUSTED property of the reader",
                  "rule R16: the regions are cut out of parse_comp by text anchors; a `continue` in the head region is written as a `return` of the synthetic function"],
         "design_ref": "DESIGN.md §5 C27",
-        "level_text": "Partial (parse side, nesting only): inside nested content every opener of a module / component deepens the tracked nesting by one and every End ends one level, at any depth, and such payloads are left to the recursive call; an own child deepens it by exactly one and is parsed from exactly its own byte range (or reported if that range leaves the input); the run-length record of the section order denotes the items in stream order. After fix F24 (content nested three levels deep was parsed twice).",
+        "level_text": "Partial (parse side): every plain section of a component is stored entry by entry, in order, and recorded in the run-length record of the section order; inside nested content every opener of a module / component deepens the tracked nesting by one and every End ends one level, at any depth, and such payloads are left to the recursive call; an own child deepens it by exactly one and is parsed from exactly its own byte range (or reported if that range leaves the input); the run-length record of the section order denotes the items in stream order. After fix F24 (content nested three levels deep was parsed twice).",
     },
     "C23": {
         "title": "Side-effect report lists exactly the tagged additions and probes",
